@@ -54,8 +54,10 @@ def rules(model: Model, tier: str) -> List[RuleResult]:
     Q = RuleResult(PROP, "C11-Q", "public capability properties report the per-class flags resolved by __new__ (inherited implementations included); .H wraps every "
                    "non-Hermitian, non-dense operator in AdjointLinearOperator (capability check + adjoint-trick fall-back)", min_instances=6)
     _capability_properties(model, Q)
+    VW = RuleResult(PROP, "C11-VW", "product methods of every LinearOperator subclass never reshape (a view of) the operand with .view (the fall-backs pass transposed operands)", min_instances=10)
+    linopalg.view_of_operand(model, VW)
     rules.extra_coverage = dict(shape_configurations=ncfg)
-    return [F, C, V, H, P, A, SH, ST, HF, IP, SC, Q]
+    return [F, C, V, H, P, A, SH, ST, HF, IP, SC, Q, VW]
 
 
 def _capability_properties(model: Model, Q: RuleResult):
